@@ -505,8 +505,19 @@ class Exec(object):
             if v is not None:
                 return v
         if f.module is not None:
+            mv = self.ctx.__dict__.get("module_vars", {})
+            if (f.module, name) in mv:
+                return mv[(f.module, name)]
             mod = self.engine.module(f.module)
             if hasattr(mod, name):
+                if not f.spec and name in self.engine.rebound_globals(f.module):
+                    # some function rebinds this module variable (global statement): its value at entry is what an
+                    # earlier call left, i.e. unknown, unless the contract's case split says what it holds
+                    v = SInt(self.ctx.fresh("modvar_" + name))
+                    mv = self.ctx.__dict__.setdefault("module_vars", {})
+                    mv[(f.module, name)] = v
+                    self.ctx.tags.add("module variable %s.%s is rebound by the code: unknown at entry" % (f.module, name))
+                    return v
                 return self.wrap(getattr(mod, name), "module:%s.%s" % (f.module, name))
         import builtins
         if hasattr(builtins, name):
@@ -623,7 +634,9 @@ class Exec(object):
         pass
 
     def st_Global(self, node):
-        raise Unsupported("global statement")
+        # names declared global: assigning them writes MODULE state (a frame matter), and what they hold when the
+        # function starts is whatever an earlier call left there, not the import-time value
+        self.frame.__dict__.setdefault("globals_decl", set()).update(node.names)
 
     def st_Import(self, node):
         for a in node.names:
@@ -715,7 +728,13 @@ class Exec(object):
             raise Unsupported("del form at line %d" % node.lineno)
 
     def assign(self, t, v):
-        if isinstance(t, ast.Name):
+        if isinstance(t, ast.Name) and t.id in self.frame.__dict__.get("globals_decl", ()):
+            origin = "module:%s.%s" % (self.frame.module, t.id)
+            self.ctx.writes.append(origin)
+            self.ctx.__dict__.setdefault("module_vars", {})[(self.frame.module, t.id)] = v
+            from .engine import taint
+            taint(v, origin)
+        elif isinstance(t, ast.Name):
             self.frame.env[t.id] = v
         elif isinstance(t, (ast.Tuple, ast.List)):
             items = self.iter_concrete(v, t.lineno)
